@@ -63,7 +63,7 @@ def replay_tree(j, h, sigma):
         except Exception:  # noqa: BLE001
             continue
         cur = start
-        for step in h[1:]:
+        for kstep, step in enumerate(h[1:]):
             call, post = step["call"], step["post"]
             g = call.get("g")
             if not gl.usable(cname, cur, g, post) or (cname in gl.NO_POW and call["op"] == "pow"):
@@ -73,7 +73,7 @@ def replay_tree(j, h, sigma):
             cid = (cname, "tree", call["op"], gl.angle_band(post), sigma)
             scale = gamma.tscale(cur, g, post, sigma=sigma)
             try:
-                Y = gl.apply(cname, X, call, sigma)
+                Y = gl.apply(cname, X, call, sigma, aug=kstep % 2 == 1)       # every second step in augmented form
             except Exception as ex:  # noqa: BLE001
                 j.fail("%s|%s|%s|raised-%s" % (PID, site, feat, type(ex).__name__),
                        {"kind": "tree-step", "cls": cname, "sigma": sigma, "pre": cur, "call": call,
@@ -285,6 +285,21 @@ def run(tier):
             nrep += 1
         j.sample({"expression-tree": [s["call"]["op"] for s in r.json[0][1:]],
                   "start.q": r.json[0][0]["post"]["q"]})
+    # the group operations on ONE live (possibly multi-valued) object interleaved with list edits and with
+    # observations x.inv(), x.prod(), g / x whose results must follow the object's current values (SeqMachine.tla)
+    import seqlib
+    nb = 160 if thorough else 24
+    for cfg, classes in (("Seq_sim", ["SE3"]), ("Seq_sim_rot", ["SO3", "UnitQuaternion"]),
+                         ("Seq_sim_planar", ["SE2"]), ("Seq_sim_planar_rot", ["SO2"])):
+        rq = run_tlc("MC_Seq", cfg, tag="C02_" + cfg, workers=4, simulate=max(1, nb // 4), depth=40,
+                     seed_=common.seed() + 29, timeout=900)
+        if len(rq.json) < nb // 2:
+            raise MachineryError("sequence machine produced %d behaviours" % len(rq.json))
+        tot_t += rq.generated
+        for h in rq.json:
+            for c in classes:
+                seqlib.replay(j, PID, c, h, sigma=1.0)
+                nrep += 1
     lat = j.evaluations
     # valuations
     nlaw = 400 if thorough else 60
